@@ -102,7 +102,12 @@ def observe(lang, text, profile="basic"):
     obs, tobs = {}, {}
     t = PROFILES[profile][lang]
     x = {"swift": x_swift, "kotlin": x_kt, "scala": x_scala, "go": x_go, "typescript": x_ts}[lang]
-    o = x.extract(text)
+    texts = text if isinstance(text, list) else [text]          # folder mode: the module file and (Swift) the shared helper file
+    o = x.extract(texts[0])
+    for more in texts[1:]:
+        o2 = x.extract(more)
+        o["defs"] += o2["defs"]
+        o.setdefault("helper_inherits", {}).update(o2.get("helper_inherits", {}))
     foo = [d for d in o["defs"] if d["name"].endswith("Foo")][0]
     fld = {"Mapped": "m", "Mapped2": "m2"}
     tobs["type_mappings"] = {k: [m["ty"].get("n") for m in foo["members"] if m["key"] == fld[k]][0] for k in t.get("type_mappings", {})}
@@ -177,6 +182,20 @@ def run_case(work, idx, c):
         obs, tobs = observe(lang, open(out).read(), profile)
         events.append(({"ev": "run", "cli": full(c["cli"]), "file": full(c["file"]), "lang": lang, "obs": full(obs),
                         "texp": texp(lang, profile), "tobs": tobs}, {"kind": "run", "lang": lang, "disc": disc, "cli": c["cli"], "file": c["file"], "tables": profile}))
+    # the same settings in folder mode INTO A LOCATION AN EARLIER RUN WITH ANOTHER CONFIGURATION FILE HAS FILLED: what the
+    # files show is the configuration of this run (Swift: the module file and the shared Codable.swift)
+    if profile != "basic" and eff is not None:
+        fdir = os.path.join(root, "folder_out")
+        first_cfg = os.path.join(root, "conf", "earlier.toml")
+        open(first_cfg, "w").write(toml_text(c["file"], profile="basic"))
+        r0 = cli.run_cli(["-l", "swift", "-c", first_cfg] + opts + ["-d", fdir, src], cwd=cwd, timeout=20)
+        r = cli.run_cli(["-l", "swift"] + (["-c", cfg_path] if by_flag else []) + opts + ["-d", fdir, src], cwd=cwd, timeout=20)
+        if r0["exit"] != "ok" or r["exit"] != "ok":
+            raise ToolError(f"typeshare failed in a C20 folder run: {r0['stderr'][-200:]} {r['stderr'][-200:]}")
+        texts = [open(os.path.join(fdir, f)).read() for f in sorted(os.listdir(fdir), key=lambda f: f == "Codable.swift")]
+        obs, tobs = observe("swift", texts, profile)
+        events.append(({"ev": "run", "cli": full(c["cli"]), "file": full(c["file"]), "lang": "swift", "obs": full(obs),
+                        "texp": texp("swift", profile), "tobs": tobs}, {"kind": "run", "lang": "swift+folder-after-earlier-run", "disc": disc, "cli": c["cli"], "file": c["file"], "tables": profile}))
     # -g with the same options, into a directory without any ancestor configuration
     gdir = os.path.join(root, "gen")
     os.makedirs(gdir)
